@@ -120,6 +120,7 @@ typedef struct {
 	unsigned char *blk, *store;        /* store: exact-size block (length 0: end of a small block) */
 	size_t store_len;
 	br_ssl_server_context *sc;         /* only eng.rng is initialised */
+	br_ssl_server_context *sc2;        /* a second server context using the same cache: its generator runs on another hash function */
 	br_ssl_session_parameters *pp;     /* exact-size block */
 	unsigned char *idarg;              /* 32-byte exact-size block, argument of forget */
 	unsigned char (*ids)[32];
@@ -134,7 +135,7 @@ typedef struct {
 static void
 env_free(env *E)
 {
-	free(E->cc); free(E->blk); free(E->sc); free(E->pp); free(E->idarg); free(E->ids);
+	free(E->cc); free(E->blk); free(E->sc); free(E->sc2); free(E->pp); free(E->idarg); free(E->ids);
 	memset(E, 0, sizeof *E);
 }
 
@@ -208,6 +209,11 @@ env_make(env *E, size_t store_len, int hash, const unsigned char *seed)
 	E->hash = hash;
 	memcpy(E->seed, seed, 32);
 	br_hmac_drbg_init(&E->sc->eng.rng, hashes[hash].cls, seed, 32);
+	/* "the SSL server context that performs the request is provided": a cache may serve several of them; the second one is
+	   configured with other hash functions (its HMAC_DRBG runs on SHA-384, or SHA-256 when the first one has SHA-384) */
+	E->sc2 = malloc(sizeof *E->sc2);
+	memset(E->sc2, 0, sizeof *E->sc2);
+	br_hmac_drbg_init(&E->sc2->eng.rng, hashes[hash].cls == &br_sha384_vtable ? &br_sha256_vtable : &br_sha384_vtable, seed + 1, 31);
 	br_ssl_session_cache_lru_init(E->cc, E->store, store_len);
 }
 
@@ -338,7 +344,7 @@ walk(const env *E)
 enum { OP_SAVE = 0, OP_LOAD = 1, OP_FORGET = 2 };
 static const char opc[3] = { 'S', 'L', 'F' };
 
-static long long n_ops, n_save, n_load, n_forget, n_hit, n_miss;
+static long long n_ops, n_save, n_load, n_forget, n_hit, n_miss, n_second_ctx;
 static long long n_cmp_exact, n_cmp_refine, n_cmp_safety, n_unjudged, n_ops_c, n_ops_b, n_ops_a;
 static long long n_evict_model, n_refresh_model, n_refine_drop;
 
@@ -368,7 +374,11 @@ do_op(env *E, ora *O, int op, int id)
 		pp->session_id_len = 32;
 		pp->version = v.version; pp->cipher_suite = v.suite;
 		memcpy(pp->master_secret, v.ms, 48);
-		E->cc->vtable->save(&E->cc->vtable, E->sc, pp);
+		{
+			int second = !hashes[E->hash].fake && (serial * 7 + (uint32_t)id) % 3 == 1;
+			E->cc->vtable->save(&E->cc->vtable, second ? E->sc2 : E->sc, pp);
+			if (second) n_second_ctx ++;
+		}
 		n_save ++;
 		fresh = !O->tainted
 			&& !(O->aliveT && lm_indexed(&O->mT, id))
@@ -394,7 +404,11 @@ do_op(env *E, ora *O, int op, int id)
 		pp->session_id_len = 32;
 		pp->version = 0xAAAA; pp->cipher_suite = 0xBBBB;
 		memset(pp->master_secret, 0x5C, 48);
-		r = E->cc->vtable->load(&E->cc->vtable, E->sc, pp);
+		{
+			int second = !hashes[E->hash].fake && (O->loglen + (uint32_t)id) % 3 == 2;
+			r = E->cc->vtable->load(&E->cc->vtable, second ? E->sc2 : E->sc, pp);
+			if (second) n_second_ctx ++;
+		}
 		n_load ++;
 		if (r != 0 && r != 1) {
 			VIOL("load-return-value", "load returned a value other than 0 or 1");
@@ -492,7 +506,7 @@ do_op(env *E, ora *O, int op, int id)
 #define DFS_U 6
 typedef struct {
 	br_ssl_session_cache_lru cc;
-	br_hmac_drbg_context rng;
+	br_hmac_drbg_context rng, rng2;
 	unsigned char store[512];
 } snap;
 
@@ -508,7 +522,7 @@ static void
 snap_take(snap *s, const env *E)
 {
 	s->cc = *E->cc;
-	s->rng = E->sc->eng.rng;
+	s->rng = E->sc->eng.rng; s->rng2 = E->sc2->eng.rng;
 	memcpy(s->store, E->store, E->store_len);
 }
 
@@ -516,7 +530,7 @@ static void
 snap_put(const snap *s, env *E)
 {
 	*E->cc = s->cc;
-	E->sc->eng.rng = s->rng;
+	E->sc->eng.rng = s->rng; E->sc2->eng.rng = s->rng2;
 	memcpy(E->store, s->store, E->store_len);
 }
 
@@ -776,6 +790,7 @@ main(int argc, char **argv)
 	}
 	vf_stat("cases", n_ops);
 	vf_stat("ops_save", n_save);
+	vf_stat("ops_by_second_server_context", n_second_ctx);
 	vf_stat("ops_load", n_load);
 	vf_stat("ops_forget", n_forget);
 	vf_stat("load_hits", n_hit);
